@@ -155,6 +155,14 @@ func genHist(seed uint64, prop, tier string, audit bool, mode string) *Plan {
 		p.Objects = append(p.Objects, *o)
 	}
 
+	// a large CRL comes with a sibling (another large list over the same serial numbers)
+	for i := 0; i < nObj; i++ {
+		if strings.HasPrefix(p.Objects[i].ID, "synth-crlbig:") && len(p.Objects) < 9 {
+			if sib := synthBigCRL(g, idx); sib != nil {
+				p.Objects = append(p.Objects, *sib)
+			}
+		}
+	}
 	// ---- configurations
 	nCfg := g.Range(prof.cfgMin, prof.cfgMax)
 	for i := 0; i < nCfg; i++ {
